@@ -117,13 +117,17 @@ func newWorld(cfg worldCfg) *world {
 	fw.Threads = []*fw.Thread{w.thread}
 	dispatch.InitializeFWThreads([]dispatch.FWThread{w.thread})
 
-	add := func(remote, local string, p face.Persistency, scope defn.Scope) {
+	add := func(remote, local string, p face.Persistency, scope defn.Scope, fragmentation bool) {
 		t := face.VerifC17MakeTransport(mustURI(remote), mustURI(local), p, scope, defn.PointToPoint, defn.MaxNDNPacketSize)
-		face.VerifC17AddFace(t, face.MakeNDNLPLinkServiceOptions())
+		o := face.MakeNDNLPLinkServiceOptions()
+		o.IsFragmentationEnabled = fragmentation
+		face.VerifC17AddFace(t, o)
 	}
-	add(appRemote, appLocal, face.PersistencyPersistent, defn.Local)
-	add(udpRemote, udpLocal, face.PersistencyPersistent, defn.NonLocal)
-	add(app2Remote, appLocal, face.PersistencyPersistent, defn.Local)
+	add(appRemote, appLocal, face.PersistencyPersistent, defn.Local, true)
+	add(udpRemote, udpLocal, face.PersistencyPersistent, defn.NonLocal, true)
+	// the second application face is configured like the unix stream listener configures its
+	// faces: fragmentation off (reliable stream)
+	add(app2Remote, appLocal, face.PersistencyPersistent, defn.Local, false)
 	if w.ils.FaceID() != fInternal || face.FaceTable.Get(fApp2) == nil || face.VerifC17NextFaceID() != fApp2+1 {
 		panic("harness: unexpected face numbering")
 	}
